@@ -47,7 +47,7 @@ THEOREMS = [
     'Pyiga.Props.C20.published_never_replaced', 'Pyiga.Props.C20.request_succeeds',
     'Pyiga.Props.C20.recovery', 'Pyiga.Props.C20.recovery_after_crashes',
     'Pyiga.Props.C20.step_touches_only_own_entry', 'Pyiga.Props.C20.repaired_heals_rejected_entry',
-    'Pyiga.Props.C20.digest_injectivity_needed', 'Pyiga.Props.C20.sharedTmp_unsafe',
+    'Pyiga.Props.C20.digest_injectivity_needed', 'Pyiga.Props.C20.rename_atomicity_needed', 'Pyiga.Props.C20.sharedTmp_unsafe',
 ]
 MODULES = ['Pyiga.Model.CompileCache', 'Pyiga.Proofs.CompileCache', 'Pyiga.Props.C20']
 
@@ -286,6 +286,13 @@ class Lab:
     def __init__(self, ctx):
         self.ctx = ctx
         self.root = os.path.join(VERIF, '.cache', 'c20-%d-%d' % (os.getpid(), ctx.seed))
+        # scratch trees of runs that were killed (their pid is gone) are removed here
+        cdir = os.path.join(VERIF, '.cache')
+        os.makedirs(cdir, exist_ok=True)
+        for e in os.listdir(cdir):
+            parts = e.split('-')
+            if e.startswith('c20-') and len(parts) == 3 and parts[1].isdigit() and not os.path.exists('/proc/' + parts[1]):
+                shutil.rmtree(os.path.join(cdir, e), ignore_errors=True)
         shutil.rmtree(self.root, ignore_errors=True)
         os.makedirs(self.root)
         self.wrapper = os.path.join(self.root, 'cc-wrapper')
@@ -547,7 +554,8 @@ def _run(ctx, lab):
             ctx.case(('fault', akey, cls, proto))
             ctx.count('fault-cases')
             ctx.count('outcome:' + r1['outcome'] + (':rebuilt' if r1.get('rebuilt') else ''))
-            ctx.sample('%s -> %s' % (name, json.dumps(r1)))
+            if akey[-1] == 'so' and cls in ('header', 'quarter', 'half', 'delete'):
+                ctx.sample('%s -> %s' % (name, json.dumps(r1)), limit=12)
             replay = {'stream': 'fault', 'file': akey, 'class': cls, 'start_state': states(sc1), 'first_fresh_process': r1, 'second_fresh_process': r2,
                       'how': 'compile vform.mass_vf(1) in an empty XDG_CACHE_HOME, apply the fault to the named file, run compile_vform+assemble in a fresh process'}
             # a non-loadable file at the imported path is reachable by interruption only if the build writes that path in place
@@ -575,7 +583,7 @@ def _run(ctx, lab):
             name = 'stage %s%s' % (stage, (' then %s %s' % ('/'.join(map(str, second[0])), second[1])) if second else '')
             ctx.case(('stage', how, stage, second, proto))
             ctx.count('stage-cases')
-            ctx.sample('%s: killed builder %s, state %s -> %s' % (name, json.dumps(r0), states(sc1), json.dumps(r1)))
+            ctx.sample('%s: killed builder %s, state %s -> %s' % (name, json.dumps(r0), states(sc1), json.dumps(r1)), limit=12)
             replay = {'stream': 'stage', 'stage': stage, 'via': how, 'then_fault': second, 'killed_builder': r0, 'state_after_kill': states(sc1), 'fresh_process': r1}
             if r0['outcome'] not in ('signal', 'exit'):
                 ctx.violation('stage-not-reached', '%s: the builder was not stopped at the stage (%s)' % (name, json.dumps(r0)), replay, False)
@@ -651,7 +659,7 @@ def _run(ctx, lab):
             ctx.count('race-rounds')
             ctx.count('race-processes', len(forms))
             nbad = [o for o in outs if o['outcome'] != 'ok']
-            ctx.sample('race %s offsets %s -> %s' % (forms, offs, [o['outcome'] + (':' + o.get('kind', '') if o['outcome'] == 'exc' else '') for o in outs]))
+            ctx.sample('race %s offsets %s -> %s' % (forms, offs, [o['outcome'] + (':' + o.get('kind', '') if o['outcome'] == 'exc' else '') for o in outs]), limit=16)
             replay = {'stream': 'race', 'forms': forms, 'start_offsets_s': offs, 'outcomes': outs, 'fresh_processes_afterwards': after, 'moddir_afterwards': left}
             same = len(set(forms)) == 1
             if nbad:
@@ -669,7 +677,7 @@ def _run(ctx, lab):
             ctx.count('held-link-races')
             replay = {'stream': 'held-link-race', 'A (linker descheduled after writing a quarter of its output)': ra, 'B (requests the same form meanwhile)': rb,
                       'fresh process afterwards': rc, 'lean_witness': 'Pyiga.Props.C20.witnessRaceImport'}
-            ctx.sample('held-link race: A %s, B %s, afterwards %s' % (ra['outcome'], rb['outcome'], rc['outcome']))
+            ctx.sample('held-link race: A %s, B %s, afterwards %s' % (ra['outcome'], rb['outcome'], rc['outcome']), limit=17)
             if not held:
                 ctx.violation('held-link-not-reached', 'the linker wrapper never reached its hold point: %s' % json.dumps(ra), replay, False)
                 continue
@@ -690,6 +698,9 @@ def _run(ctx, lab):
             if not ok:
                 ctx.violation('model-diff:held-link-race', 'model `%s`, real `%s`' % (got, real), replay, False)
 
+    import resource
+    ru = resource.getrusage(resource.RUSAGE_CHILDREN)
+    ctx.extra['children_cpu_s'] = round(ru.ru_utime + ru.ru_stime, 1)     # wall time on an idle 16-core machine ~ this / 16 + serial parts
     ctx.rule = ('1-D mass form (and stiffness for distinct-form races) compiled in scratch caches; every file left by a complete build x '
                 '{empty, 64-byte header, one page, quarter, half, all-but-last-byte, garbage, delete} then two fresh processes; builds killed when gcc is '
                 'invoked for compile/link, after a truncated link, after the link (+ hook stages when present), then a fresh process, also with a second '
@@ -698,8 +709,10 @@ def _run(ctx, lab):
     ctx.notes.append('cannot exhibit: kernel rename/dlopen semantics (rename atomicity is an assumption of safe_repaired; both loader reactions to a '
                      'partial file are modelled and whichever the sandboxed probe observes is compared), real scheduling (sampled here, exhaustively interleaved in the model)')
     if inplace:
-        ctx.notes.append('measured protocol = current (the linker writes the imported path in place): Props.C20.current_unsafe applies; '
-                         'safe_repaired is a theorem about fixes/C20-atomic-publish.patch, not about this tree')
+        ctx.notes.append('measured protocol = in-place (the linker writes the imported path): Props.C20.current_unsafe applies; '
+                         'safe_repaired does NOT describe this tree (regression of fix bd865f5)')
         ctx.level = 'proof (partial)'
     else:
+        ctx.notes.append('measured protocol = repaired (private link target, entry appears by rename): safe_repaired, published_never_replaced, '
+                         'request_succeeds, recovery are theorems about this tree\'s protocol; current_unsafe is about the code before fix bd865f5')
         ctx.level = 'proof (partial)'
